@@ -44,9 +44,9 @@ def warmup():
 def enumerate_states(tier, seed):
     states = []
     for ta, tb in itertools.product(sc.TYPES, sc.TYPES):
-        states += gs.enumerate_custom(ta, tb, c07.ALPH, 2)
-    return states, {"bound_completed": "deviation bound 2 over 9 coordinates (9 overlapping placements x 9 directions x 7x7 orientations x "
-                                       "4x4 sizes x offsets x margins), all 100 ordered type pairs", "exhaustive": True}
+        states += gs.enumerate_custom(ta, tb, c07.ALPH, 3 if tier == "thorough" else 2)
+    return states, {"bound_completed": "deviation bound %d over 9 coordinates (9 overlapping placements x 9 directions x 7x7 orientations x "
+                                       "4x4 sizes x offsets x margins), all 100 ordered type pairs" % (3 if tier == "thorough" else 2), "exhaustive": True}
 
 
 def _viol(kind, cls, detail):
